@@ -202,6 +202,33 @@ def work(job):
                 return t
             tm = guard('StochasticTMLE.outcome_model', mk_tm)
 
+    if wcol:
+        # with a weights column and a NON-saturated treatment model: StochasticIPTW(p=1 / 0) is still the arm mean of the unstabilised
+        # marginal structural model fitted with the same weights and the same treatment model
+        def mk_iptw_w():
+            # a main-effects-only model of two covariates is not saturated and (unlike the intercept-only model) does not force the
+            # weighted sum of A/g to equal the sum of the weights
+            cand = [m_ for m_ in (job.get('meta') or {}).get('sub_models', []) if '+' in m_ and '*' not in m_ and ':' not in m_]
+            model = cand[0] if cand else (job.get('sub_model') or '1')
+            ip = IPTW(df, 'A', 'Y', weights=wcol)
+            ip.treatment_model(model, stabilized=False, print_results=False)
+            ip.marginal_structural_model('A')
+            if otype == 'binary':
+                ip.fit()
+                mu0 = float(ip.risk_difference['RD'].iloc[0])
+                mu1 = mu0 + float(ip.risk_difference['RD'].iloc[1])
+            else:
+                ip.fit(continuous_distribution='gaussian')
+                b0, b1 = [float(x) for x in ip.average_treatment_effect['ATE']]
+                mu0, mu1 = b0, b0 + b1
+            sp = StochasticIPTW(df, 'A', 'Y', weights=wcol)
+            sp.treatment_model(model, print_results=False)
+            sp.fit(p=1.0)
+            m1 = float(sp.marginal_outcome)
+            sp.fit(p=0.0)
+            out['iptw_w'] = (mu1, mu0, m1, float(sp.marginal_outcome), model)
+        guard('IPTW.fit(weights)', mk_iptw_w)
+
     # ------------------------------------------------------------------ plans
     def sip_fit(p, conds):
         rec = {}
@@ -516,6 +543,15 @@ def check(ctx, fails, job, out, res, snaps_ok):
                     fails.append((n, 'StochasticIPTW.fit.p%s-vs-IPTW-msm' % nm,
                                   'StochasticIPTW(p=%s) = %r but the IPTW marginal structural model arm mean is %r with the '
                                   'same treatment model %r [%s]' % (nm, a, b, job['sub_model'], tagf), payload))
+    if 'iptw_w' in out:
+        mu1, mu0, m1, m0, model = out['iptw_w']
+        for nm, a, b in (('1', m1, mu1), ('0', m0, mu0)):
+            ctx.disagreements_checked += 1
+            ctx.count('StochasticIPTW(weights=) p=%s against the weighted MSM arm, treatment model %s' % (nm, 'intercept only' if model == '1' else 'sub-model'))
+            if abs(a - b) > TOL_FIT * max(1.0, abs(b)):
+                fails.append((n, 'StochasticIPTW.fit.p%s-vs-IPTW-msm.weighted' % nm,
+                              'StochasticIPTW(weights=, p=%s) = %r but the IPTW marginal structural model arm mean with the same weights and the '
+                              'same treatment model %r is %r [%s]' % (nm, a, model, b, tagf), payload))
     if 'tm_den' in out:
         # StochasticTMLE fitted the same saturated nuisance models (oracle)
         gA = [gi if a else 1 - gi for gi, a in zip(out['g'], out['A'])]
@@ -917,7 +953,8 @@ def run(ctx):
     for i in range(nf):
         otype = 'binary' if i % 4 != 3 else 'normal'
         weighted = (i % 8 == 5)
-        jobs.append(make_job(ctx.rng, ctx.quick, otype, weighted=weighted))
+        # weighted frames carry two covariates, so that a main-effects-only (non-saturated) treatment model exists
+        jobs.append(make_job(ctx.rng, ctx.quick, otype, weighted=weighted, n_cov=2 if weighted else None))
     # the minimal design of the conditional-plan finding: one binary covariate
     jobs.append(make_job(ctx.rng, ctx.quick, 'binary', n_cov=1, arities=[2], cell=(2, 4)))
     bj = boundary_job(ctx.rng)
